@@ -197,6 +197,21 @@ CHECKS["C14"] = dict(
     technique=TECH,
 )
 
+CHECKS["C02"] = dict(
+    category="other",
+    text=("Mixed, the deciding part is BOUNDED: discharged exactly on the real ast - the precedence/associativity table of "
+          "ExpressionEvaluator induces, through the climbing rule as written, the ISO C grouping for every ordered pair of the 18 "
+          "binary operators, unary binds tighter, ?: lowest and right associative (554 finite obligations), and an #elif of a "
+          "chain that already selected a branch is never evaluated (contract of the visitor closure, proved for all inputs). "
+          "The arithmetic (64-bit signed/unsigned with the usual conversions, 0/1 results, truncating / and %, literals in every "
+          "base/suffix, character constants with escapes, defined, unknown identifiers) is checked against a C reference evaluator "
+          "up to a stated bound (every atom x unary operator, every binary operator on 10x10 boundary operands, every operator "
+          "pair, ternary nesting, seeded random depth-3 expressions). Six defect classes found this way were fixed in /repo."),
+    design_ref="DESIGN.md section 5 C02, section 9",
+    note="A9 C reference evaluator and precedence table are trusted specs; the unsuffixed-literal OverflowError is pinned by tests/failure (known finding); macro expansion before evaluation belongs to C03.",
+    technique="syntactic/finite obligations on the real ast + contract on the visitor closure (pyvc+z3); arithmetic by a bounded native check",
+)
+
 NA = {}
 
 DEFAULT_NA = "check not built yet (work in progress; see DESIGN.md section 5 for the plan)"
